@@ -498,6 +498,32 @@ func (w *World) loopOrdinal(fn *ssa.Function, li *loopInfo) (int, ast.Node) {
 	return best + 1, stmts[best]
 }
 
+// funcLitOrdinal: 1-based position of a closure's literal among the function
+// literals of the outermost enclosing source function, in source order.
+func (w *World) funcLitOrdinal(fn *ssa.Function) int {
+	lit, ok := fn.Syntax().(*ast.FuncLit)
+	if !ok {
+		return 0
+	}
+	outer := fn
+	for outer.Parent() != nil {
+		outer = outer.Parent()
+	}
+	n, found := 0, 0
+	if syn := outer.Syntax(); syn != nil {
+		ast.Inspect(syn, func(x ast.Node) bool {
+			if fl, ok := x.(*ast.FuncLit); ok {
+				n++
+				if fl.Pos() == lit.Pos() {
+					found = n
+				}
+			}
+			return true
+		})
+	}
+	return found
+}
+
 func (w *World) loopStmts(fn *ssa.Function) []ast.Node {
 	if s, ok := w.loopCache[fn]; ok {
 		return s
